@@ -53,7 +53,7 @@ const NAMES: &[&str] = &["flour", "salt", "olive oil", "Crème fraîche", "ñame
 const WORDS: &[&str] = &["Mix", "the", "and", "then", "add", "until", "golden", "slowly", "with", "a", "into", "stir", "well", "é", "ok"];
 const UNITS: &[&str] = &["g", "kg", "ml", "l", "cups", "tsp", "pinch", "cloves", "oz"];
 const TIME_UNITS: &[&str] = &["min", "minutes", "h", "hours", "s", "minute"];
-const TEXT_VALS: &[&str] = &["a pinch", "some", "to taste", "a few", "2 heaped", "1 large", "3 or so"];
+const TEXT_VALS: &[&str] = &["a pinch", "some", "to taste", "a few", "2 heaped", "1 large", "3 or so", "1 1/2 cups", "2 1/2 heaped spoons", "1/2 cup", "1 1/2 - 2 or so", "2-3 large", "1.5 extra", "1 1/2-inch pieces"];
 const NOTES: &[&str] = &["chopped", "room temperature", "finely diced é"];
 
 fn num(rng: &mut Rng, extended: bool) -> Num {
@@ -264,7 +264,7 @@ fn component(rng: &mut Rng, extended: bool, defs: &mut Defs, steps_before: u32, 
                 // a text value that starts with a number is core syntax only when a `%unit` follows: without the `%`
                 // ADVANCED_UNITS documents it as number + unit
                 let number_led = matches!(&val, Val::Text(t) if t.starts_with(|c: char| c.is_ascii_digit()));
-                let unit = if number_led || rng.chance(2, 3) { Some(rng.pick_str(UNITS).to_string()) } else { None };
+                let unit = if (number_led && extended) || rng.chance(2, 3) { Some(rng.pick_str(UNITS).to_string()) } else { None };
                 let lock = extended && !matches!(val, Val::Text(_)) && rng.chance(1, 8);
                 Some(Qty { val, unit, lock })
             } else { None };
